@@ -82,6 +82,11 @@ func (e *EngineApplier) applyInReadOnlyMode(entry *wal.Entry) error {
 
 	case wal.OpTypeMerge:
 		// Handle merge as a put operation for compatibility
+		// Try internal interface first so the read-only flag is never cleared
+		if putter, ok := e.engine.(interface{ PutInternal(key, value []byte) error }); ok {
+			return putter.PutInternal(entry.Key, entry.Value)
+		}
+
 		if setter, ok := e.engine.(interface{ SetReadOnly(bool) }); ok {
 			setter.SetReadOnly(false)
 			err := e.engine.Put(entry.Key, entry.Value)
